@@ -62,7 +62,13 @@ TimeViols(sid, s, t) ==
     \o (IF s.noopDue # Off /\ t > s.noopDue THEN <<V("C08", "pending_poll_not_released_for_upgrade", sid, [due |-> s.noopDue, now |-> t])>> ELSE <<>>)
 \* after reporting, push the obligations forward so that one breach is reported once
 TimeAdvance(s, t) ==
-    IF s.closed \/ s.parked > 0 THEN s ELSE
+    IF s.closed THEN s
+    \* (while a goroutine of the session is held at a gate no obligation is evaluated, but the deadline the ping timer of a
+    \*  closing session arms when it fires is knowledge, not an obligation: a replayed behaviour may hold a writer across it)
+    ELSE IF s.parked > 0
+    THEN IF PingMissed(s.pingDue, t) /\ s.closeCalled /\ s.deadline = Off /\ s.pingDue + cfg.pt >= t
+         THEN [s EXCEPT !.deadline = s.pingDue + cfg.pt, !.pingDue = Off] ELSE s
+    ELSE
     \* a session that is closing cannot be sent a ping, but the ping timer still arms the timeout: that deadline
     \* is the "next heartbeat deadline" which bounds a graceful close with data still buffered (C12)
     [s EXCEPT !.pingDue = IF PingMissed(s.pingDue, t) THEN Off ELSE s.pingDue,
@@ -520,6 +526,22 @@ Step ==
                       \o (IF x.nclose # y.nclose THEN <<"nclose">> ELSE <<>>) \o (IF x.nrcvd # y.nrcvd THEN <<"nrcvd">> ELSE <<>>)
             IN /\ S' = SS /\ UNCHANGED <<cfg, Rq, Cn>>
                /\ viol' = viol \o tv \o (IF diffs = <<>> THEN <<>> ELSE <<V("NONCONF", "model_state_differs", e.sid, [after |-> e.a, fields |-> diffs, exp |-> x, act |-> y])>>)
+       [] e.e = "reg.expect" ->
+            \* conformance of the real server to Registry.tla: table, count, and - for the sessions the harness can get hold of -
+            \* ready state and number of close events, after every replayed step (NONCONF, as above)
+            LET x == e.exp  y == e.act
+                ids == DOMAIN y.rs
+                diffs == (IF x.table # y.table THEN <<"table">> ELSE <<>>) \o (IF x.count # y.count THEN <<"count">> ELSE <<>>)
+                      \o (IF \E i \in ids : i \in DOMAIN x.rs /\ x.rs[i] # y.rs[i] THEN <<"rs">> ELSE <<>>)
+                      \o (IF \E i \in DOMAIN y.nclose : i \in DOMAIN x.nclose /\ x.nclose[i] # y.nclose[i] THEN <<"nclose">> ELSE <<>>)
+            IN /\ S' = SS /\ UNCHANGED <<cfg, Rq, Cn>>
+               /\ viol' = viol \o tv \o (IF diffs = <<>> THEN <<>> ELSE <<V("NONCONF", "registry_state_differs", e.i, [after |-> e.a, fields |-> diffs, exp |-> x, act |-> y])>>)
+                    \* C04 / C03 on the projection itself: the count never underflows, no session has two close events
+                    \o (IF y.count < 0 \/ y.count > 1000000 THEN <<V("C04", "client_count_underflow", e.i, y.count)>> ELSE <<>>)
+                    \o (IF \E i \in DOMAIN y.nclose : y.nclose[i] > 1 THEN <<V("C03", "second_close_event", e.i, y.nclose)>> ELSE <<>>)
+       [] e.e = "reg.look" ->
+            /\ S' = SS /\ UNCHANGED <<cfg, Rq, Cn>>
+            /\ viol' = viol \o tv \o (IF e.found # e.exp THEN <<V("NONCONF", "registry_lookup_differs", e.i, [step |-> e.step, found |-> e.found, exp |-> e.exp, status |-> e.status])>> ELSE <<>>)
        [] e.e = "finish" ->
             LET ivs == SelectSeq(e.left, LAMBDA g : (g = "interval"))
                 oth == SelectSeq(e.left, LAMBDA g : ~(g = "interval"))
